@@ -26,7 +26,7 @@ import functools
 import numpy as np
 import os.path as osp
 import schedula as sh
-from ..ranges import Ranges
+from ..ranges import Ranges, _intersect
 from ..errors import InvalidRangeName
 from ..cell import Cell, RangesAssembler, Ref, CellWrapper, InvRangesAssembler
 from ..tokens.operand import XlError, _re_sheet_id, _re_build_id
@@ -378,6 +378,11 @@ class ExcelModel:
             _name = '%s'
             if 'sheet_id' in rng:
                 _name = f'{rng["sheet_id"]}!{_name}'
+            # The cells of an array formula are defined by its anchor cell.
+            for anchor, ref in formula_references.items():
+                arr = Ranges.get_range(ref, context)
+                if _intersect(arr, dict(rng, sheet_id=arr['sheet_id'])):
+                    stack.append(_name % anchor)
             if wk not in sheet_limits:
                 sheet_limits[wk] = wk.max_row, wk.max_column
             max_row, max_column = sheet_limits[wk]
